@@ -6,7 +6,7 @@ def run(ctx):
     ctx.trust("vsym symbolic differentiation rules (sum, product, quotient)")
     ctx.assume("the source stress is an affine function of its kinematic variable with a symbolic derivative: arbitrary value and arbitrary tangent at the point (what a converter may depend on)",
                "covered: Cauchy / PK1 / PK2 conversions (definitions and mutual inverses); DS_DEGL <-> DS_DC; DS_DEGL -> DS_DF, -> SPATIAL_MODULI -> DTAU_DF, -> DSIG_DF (and the composition DTAU_DF -> DSIG_DF), SPATIAL_MODULI <-> DS_DEGL, C_TRUESDELL; DSIG_DF <-> DSIG_DDF; PK1 derivative conversions are under C06",
-               "NOT covered: Jaumann / Abaqus rate moduli (their oracle is a rate form, not a derivative of a stress function), DT_DELOG (eigen + log), the run-time dispatch in src/Material and the code generation of conversion calls in mfront/src; quick tier: 3D for the stress measures and the material operators only, thorough: everything in 3D")
+               "converter web (1D, 2D): Jaumann / Abaqus rate moduli anchored by their rate forms, DPK1_DF, 33 converters; NOT covered: DTAU_DDF, DT_DELOG (eigen + log), the run-time dispatch in src/Material and the code generation of conversion calls in mfront/src; 3D: stress measures and material operators (both tiers), increment operators (thorough); from-DS_DEGL and the converter web in 3D are written (VERIF_EXPERIMENTAL) but did not finish within 30-50 minutes and are in neither tier")
     srcs = ""
     run_spec(ctx, flags=("-DVERIF_THOROUGH " if ctx.thorough else "") + srcs, expect_min=200, per_timeout=900 if ctx.thorough else 120)
     # native replay of the DS_DF conversions against finite differences (derivative obligations have no symbolic-to-double replay)
